@@ -22,6 +22,7 @@
 
 from dataclasses import dataclass, field
 import datetime
+import math
 from typing import Any, Union
 
 from collections.abc import Callable
@@ -34,6 +35,10 @@ from .form_input_field import FormInputContext
 from .types import CgiOption, CgiOptionChoice, OptionUsage
 
 CgiChoiceType = Union[tuple[str, str], str, None]
+
+# the largest number accepted for a numeric option: larger values cannot be
+# used as a number of seconds (datetime.timedelta overflows)
+MAX_NUMERIC_VALUE: int = 10 ** 12
 
 @dataclass(slots=True, frozen=True)
 class DashOption:
@@ -187,13 +192,20 @@ class DashOption:
     def int_or_none_from_string(value: str) -> int | None:
         if value is None or value.lower() in {'', 'none'}:
             return None
-        return int(value, 10)
+        rv = int(value, 10)
+        if abs(rv) > MAX_NUMERIC_VALUE:
+            # (larger values can't be used as a number of seconds)
+            raise ValueError(f'Value {value} is out of range')
+        return rv
 
     @staticmethod
     def float_or_none_from_string(value: str) -> float | None:
         if value is None or value.lower() in {'', 'none'}:
             return None
-        return float(value)
+        rv = float(value)
+        if not math.isfinite(rv) or abs(rv) > MAX_NUMERIC_VALUE:
+            raise ValueError(f'Value {value} is out of range')
+        return rv
 
     @staticmethod
     def datetime_or_none_from_string(value: str) -> float | None:
